@@ -1,0 +1,40 @@
+//go:build verif
+
+package p2p
+
+import (
+	"crypto/ecdsa"
+	"net"
+
+	"github.com/zenon-network/go-zenon/p2p/discover"
+)
+
+// Exports for the verification harness (/verif): a Peer exactly as Server.run creates it after the two
+// handshakes (newPeer over a conn), on top of a caller-supplied message stream, with its run loop
+// (readLoop, pingLoop, protocol goroutines) and its message dispatcher.
+
+// verifTransport is a transport whose handshakes are already done; close reports the reason to the owner.
+type verifTransport struct {
+	MsgReadWriter
+	closed func(error)
+}
+
+func (t *verifTransport) doEncHandshake(*ecdsa.PrivateKey, *discover.Node) (discover.NodeID, error) {
+	return discover.NodeID{}, nil
+}
+func (t *verifTransport) doProtoHandshake(*protoHandshake) (*protoHandshake, error) { return nil, nil }
+func (t *verifTransport) close(err error)                                           { t.closed(err) }
+
+// VerifNewPeer returns a peer for the connection rw with the remote capabilities caps, running the matching
+// protocols. closed is called (once, by the run loop) with the reason the connection is closed for.
+func VerifNewPeer(id discover.NodeID, name string, caps []Cap, protocols []Protocol, rw MsgReadWriter, closed func(error)) *Peer {
+	fd, _ := net.Pipe()
+	c := &conn{fd: fd, transport: &verifTransport{MsgReadWriter: rw, closed: closed}, id: id, caps: caps, name: name}
+	return newPeer(c, protocols)
+}
+
+// VerifPeerRun runs the peer until it is disconnected (what Server.runPeer does).
+func VerifPeerRun(p *Peer) DiscReason { return p.run() }
+
+// VerifPeerHandle dispatches one inbound message (what readLoop does with every message).
+func VerifPeerHandle(p *Peer, msg Msg) error { return p.handle(msg) }
